@@ -1848,9 +1848,35 @@ func scenSnapshotVsInstall(e *engineA) error {
 		e.cl.takeSnapshot(f, 0)
 		e.sleepHB(1, 2)
 	}
-	e.rc.emit(&ev.Rec{K: "fault", Op: "restart", Nid: f.nid})
-	if _, err := e.cl.restart(f.nid); err != nil {
-		e.rc.emit(&ev.Rec{K: "restart-failed", Cid: e.cl.cid, Nid: f.nid, Err: err.Error()})
+	if e.rng.Intn(2) == 0 {
+		e.rc.emit(&ev.Rec{K: "fault", Op: "restart", Nid: f.nid})
+		if _, err := e.cl.restart(f.nid); err != nil {
+			e.rc.emit(&ev.Rec{K: "restart-failed", Cid: e.cl.cid, Nid: f.nid, Err: err.Error()})
+		}
+	} else {
+		// no restart: the node takes over as it is and has to bring a new
+		// member up to date - by snapshot, its log begins where the installed
+		// one ended
+		e.rc.emit(&ev.Rec{K: "fault", Op: "lead-after-both-snapshots-and-serve-a-new-node", Nid: f.nid})
+		for try := 0; try < 3; try++ {
+			cur := e.cl.waitLeader(100 * e.hb())
+			if cur == nil || cur == f {
+				break
+			}
+			e.cl.transfer(cur, f.nid, 20*e.hb())
+			e.sleepHB(2, 3)
+		}
+		if nl := e.cl.waitLeader(100 * e.hb()); nl != nil {
+			if info, ok := nl.info(false); ok {
+				conf := info.Configs.Latest
+				if id := e.newNodeID(&conf); id != 0 {
+					e.cl.changeConfig(nl, fmt.Sprintf("add(%d,promote=true)", id), func(c *raft.Config) error {
+						return c.AddNonvoter(id, e.cl.addrOf(id), true)
+					})
+				}
+			}
+		}
+		e.sleepHB(4, 6)
 	}
 	e.startClients(2, map[string]int{"update": 3, "read": 1})
 	e.sleepHB(4, 8)
@@ -2931,6 +2957,95 @@ func scenIdleNonvoterRestarted(e *engineA) error {
 		}
 	}
 	e.rc.emit(rec)
+	return e.finish()
+}
+
+func init() { scenarios["restart-after-install"] = scenRestartAfterInstall }
+
+// scenRestartAfterInstall (C03 / C02 / C10): a follower is brought forward by
+// an installed snapshot that replaces its log (the log then begins exactly
+// where the snapshot ends). With the third node down, further updates are
+// committed by the leader and this follower alone. The follower is
+// restarted, the leader goes down, the third node comes back: the two that
+// are up must elect the one that holds those updates, and no state machine
+// may ever hold anything else at their positions.
+func scenRestartAfterInstall(e *engineA) error {
+	e.prof = profiles["snapshot"]
+	if err := e.boot(3); err != nil {
+		return err
+	}
+	e.cl.startInfoSampler(e.hb() / 2)
+	l := e.cl.leader()
+	if l == nil {
+		return fmt.Errorf("no leader")
+	}
+	pad := 90 + 10*e.rng.Intn(4)
+	for i := 0; i < 5+e.rng.Intn(10); i++ {
+		e.cl.fsmOpPad(1, l, "update", pad)
+	}
+	fs := e.others(l)
+	f, d := fs[0], fs[1]
+	e.rc.emit(&ev.Rec{K: "fault", Op: "install-then-commit-with-two-then-restart", Nid: f.nid})
+	e.isolate(f, true)
+	for i := 0; i < 20+e.rng.Intn(30); i++ {
+		if r := e.cl.fsmOpPad(1, l, "update", pad); !r.ok {
+			break
+		}
+	}
+	e.sleepHB(4, 5)
+	e.cl.takeSnapshot(l, 0)
+	e.waitFor(30, func() bool {
+		info, ok := l.info(false)
+		return ok && info.FirstLogIndex > 4
+	})
+	e.isolate(f, false)
+	if !e.waitFor(80, func() bool {
+		a, ok1 := f.info(false)
+		b, ok2 := l.info(false)
+		return ok1 && ok2 && a.Committed >= b.Committed
+	}) {
+		return fmt.Errorf("the follower was not brought forward")
+	}
+	// the third node goes down; the leader and the follower commit alone
+	if !d.shutdown(30 * time.Second) {
+		return fmt.Errorf("shutdown")
+	}
+	e.parked[d.nid] = true
+	var last int64
+	for i := 0; i < 5+e.rng.Intn(10); i++ {
+		if r := e.cl.fsmOpPad(1, l, "update", pad); r.ok {
+			last = r.pos
+		}
+	}
+	e.waitFor(40, func() bool {
+		r := e.cl.fsmOp(1, f, "dirty")
+		return r.ok && r.readLen >= last
+	})
+	// the follower is restarted; then the leader goes down and the third
+	// node comes back
+	if _, err := e.cl.restart(f.nid); err != nil {
+		e.rc.emit(&ev.Rec{K: "restart-failed", Cid: e.cl.cid, Nid: f.nid, Err: err.Error()})
+		return e.finish()
+	}
+	if !l.shutdown(30 * time.Second) {
+		return fmt.Errorf("shutdown")
+	}
+	e.parked[l.nid] = true
+	delete(e.parked, d.nid)
+	if _, err := e.cl.start(d.nid, d.dir); err != nil {
+		return err
+	}
+	if nl := e.cl.waitLeader(200 * e.hb()); nl != nil {
+		for i := 0; i < 5; i++ {
+			e.cl.fsmOpPad(1, nl, "update", pad)
+		}
+	}
+	delete(e.parked, l.nid)
+	if _, err := e.cl.start(l.nid, l.dir); err != nil {
+		e.rc.emit(&ev.Rec{K: "restart-failed", Cid: e.cl.cid, Nid: l.nid, Err: err.Error()})
+	}
+	e.startClients(2, map[string]int{"update": 3, "read": 1})
+	e.sleepHB(4, 8)
 	return e.finish()
 }
 
